@@ -25,6 +25,7 @@ REVERSED_FIXES = {
     "D04_adwinacc_ctor": ["C03"], "D05_nnsp_split": ["C10", "C18"], "D06_kdq_persistence": ["C09"], "D07_pcacd_noscale": ["C11"],
     "D08_pcacd_bounds": ["C11"], "D10b_univariate_guard": ["C14"], "D11_injector_dict": ["C15"], "D12_adwin_empty_rows": ["C03"],
     "D13_cdbd_list_input": ["C14"], "D14_hdm_proxy_names": ["C14"], "D15_hdm_reference_labels": ["C14"], "D16_md3_label_column_order": ["C19"],
+    "D17_nnsp_offset": ["C10"], "D18_md3_label_view": ["C15"],
 }
 # seeded changes that also break a neighbouring property whose check sees them far more reliably
 EXTRA_CHECKS = {"C17-m1": ["C09"], "C17-w3m2": ["C04"]}
@@ -88,7 +89,7 @@ def main():
     SEED[0] = a.seed
     mutants = []
     import re
-    for d in sorted(glob.glob(os.path.join(HERE, "seeded", "[CFPQ][0-9][0-9]-*"))):
+    for d in sorted(glob.glob(os.path.join(HERE, "seeded", "[CFPQR][0-9][0-9]-*"))):
         name = os.path.basename(d)
         if name.startswith("C"):
             checks = [name[:3]] + EXTRA_CHECKS.get(name, [])
